@@ -258,4 +258,33 @@ theorem C17_headings_increasing (i : Input) (hg : i.grouping = true)
   · have hge : s2.cost ≤ s1.cost := by grind
     exact absurd (costBucket_rank_mono n2 hge) (by omega)
 
+/-- **A report is always produced.** Whenever the commands are accepted (no rejected predicate string:
+`runPipeline` on the concatenated commands succeeds — `C04_error` says exactly when), `recommend` returns a
+report: no `KeyError` can come from the assessment or from the rendering loop, for any database, oracle,
+strategy and option. (This is also the non-vacuity of `C17_end_to_end`: with no command at all there is
+always a report, listing every program of the database.) -/
+theorem C17_report_total (c : Ctx) (r : Relations) (strat : Strategy) (sloc : Codes → Nat) (sorting : Sorting)
+    (grouping : Bool) (runs : List (List Command)) (st : State) (log : List LogEntry)
+    (h : runsLogged c r (initState c.programs) [] runs = .ok (st, log)) :
+    ∃ rep, recommend c r strat sloc sorting grouping runs = .ok rep ∧ rep.final = st ∧ rep.log = log := by
+  have hsub := runPipeline_sublist c r runs.flatten (initState c.programs) st
+    (runsLogged_state c r runs _ [] st log h)
+  have hsel : ∀ p ∈ st.selected, p ∈ c.programs.map (·.1) := fun p hp => hsub.subset hp
+  obtain ⟨assessed, ha⟩ := assess_total strat c.programs st.knowledge st.selected hsel
+  have hass : ∀ cp ∈ assessed, cp.2 ∈ c.programs.map (·.1) := by
+    intro cp hcp
+    have := (assess_spec strat c.programs st.knowledge st.selected assessed ha).1
+    exact hsel cp.2 (this.mem_iff.mp (List.mem_map_of_mem hcp))
+  obtain ⟨b, hb⟩ := body_total ⟨strat, c.programs, sloc, st.knowledge, st.hiddenTaxa, st.hiddenPrograms, assessed,
+    sorting, grouping⟩ hass
+  refine ⟨⟨b, log, st, assessed⟩, ?_, rfl, rfl⟩
+  unfold recommend
+  rw [h]
+  simp only [ha, hb]
+
+example (c : Ctx) (r : Relations) (strat : Strategy) (sloc : Codes → Nat) (sorting : Sorting) (grouping : Bool) :
+    ∃ rep, recommend c r strat sloc sorting grouping [] = .ok rep ∧ rep.final = initState c.programs :=
+  let ⟨rep, h1, h2, _⟩ := C17_report_total c r strat sloc sorting grouping [] (initState c.programs) [] rfl
+  ⟨rep, h1, h2⟩
+
 end Paroxy.Props.C17
